@@ -129,16 +129,18 @@ theorem read_only (c : Cfg) (s : St) (n ts ta ex fuel : Nat) (hro : c.ro = true)
   · unfold allocT; rw [if_pos hro]; rfl
   · unfold allocAligned; rw [if_pos hro]; rfl
 
+-- CHANGED (histories now contain `truncate`, which changes the capacity): `hbig` speaks of the current capacity
+-- `x.st.cap` instead of `o.cap` (for the sync flavour they are equal, `reachable_rel`).
 /-- a request that cannot fit the capacity at all is refused: nothing of size ≥ capacity is ever handed out -/
 theorem too_large_refused (o : Opts) (g : Guards o) (fuel : Nat) (hfuel : o.cap + 2 ≤ fuel) (x : CSess)
-    (hr : Reachable o fuel x) (n : Nat) (hn : n < TWO32) (hbig : o.cap ≤ n) :
+    (hr : Reachable o fuel x) (n : Nat) (hn : n < TWO32) (hbig : x.st.cap ≤ n) :
     allocBytes o.cfg x.st n fuel = .ok (.error .insufficient, x.st) := by
-  obtain ⟨free, lives, ci, hf, hc⟩ := reachable_cinv o g fuel hfuel x hr
+  obtain ⟨free, lives, ci, hf, _⟩ := reachable_cinv o g fuel hfuel x hr
   have hw := ci.wf
   have h1 := hw.lo
   have h2 := hw.mid
-  have h3 : x.st.allocated ≤ o.cap := by rw [← hc]; exact hw.hi
-  have hcap : (x.st.abs free).cap = o.cap := hc
+  have h3 : x.st.allocated ≤ x.st.cap := hw.hi
+  have hcap : (x.st.abs free).cap = x.st.cap := rfl
   have hal : (x.st.abs free).allocated = x.st.allocated := rfl
   rw [hal] at h2
   have hs : (x.st.abs free).slow o.cfg n = (.error .insufficient, x.st.abs free) := by
